@@ -103,6 +103,9 @@ def smooth_program(algopy, name):
         # integer-valued float exponents and negative integer exponents; the point may have
         # negative entries (the harness only excludes zeros)
         return lambda x: x[0] ** 2.0 * x[1] + x[1] ** 3.0 + x[0] * x[1] ** -3 + (x[0] * x[1]) ** -2.0
+    if name == 'rosenbrock, float exponents':
+        # integer-valued python / numpy float exponents at ANY point (the textbook test points have zero entries)
+        return lambda x: algopy.sum(100. * (x[1:] - x[:-1] ** 2.0) ** 2.0 + (1. - x[:-1]) ** np.float64(2.0)) + x[0] ** 3.0 * x[1]
     if name == 'matrix-valued':
         return lambda x: algopy.outer(x, x * x) + algopy.outer(cv[:1] * np.ones(3), x) + Cm * x
     raise KeyError(name)
@@ -502,6 +505,7 @@ def units(tier, seed):
         add('%s/constant operands of higher rank/N3' % drv, 'h_driver', driver=drv, N=3, M=1, m=0, smooth='constant operands')
         add('%s/float and negative powers, base of either sign/N2' % drv, 'h_driver', driver=drv, N=2, M=1, m=0, smooth='float and negative powers')
         add('%s/in-place arithmetic/N3' % drv, 'h_driver', driver=drv, N=3, M=1, m=0, smooth='in-place')
+        add('%s/rosenbrock with float exponents, any point/N3' % drv, 'h_driver', driver=drv, N=3, M=1, m=0, smooth='rosenbrock, float exponents')
         if drv in ('jacobian', 'jac_vec'):
             add('%s/matrix-valued result/N3' % drv, 'h_driver', driver=drv, N=3, M=1, m=0, smooth='matrix-valued')
         add('%s/integer-typed point' % drv, 'h_intpoint', o={'validate': False}, driver=drv, N=2)
